@@ -31,6 +31,6 @@ LEVEL_TEXT = ("CrossHair executes the real notes_per_second over an abstract int
 LEVEL_NOTE = "total_seconds() and the final int/float division are abstracted to a tagged (count, microseconds) pair (S3). Trusted: S1, S3, S4."
 TECHNIQUE = CH_TECH
 EXPLANATION = "see obligation_table"
-BOUNDS = "<=2 (quick) / <=3 (thorough) notes; ints unbounded"
+BOUNDS = "<=2 (quick) / <=3 (thorough) notes in any time order; positional and keyword bound forms; [Song] Offset symbolic; ints unbounded"
 OUTSIDE = "the float value of count/seconds itself (one IEEE division)"
 ASSUMPTIONS = [S1, S3, S4]
